@@ -704,12 +704,7 @@ reprocess:
 			break;
 			}
 		case '%':
-			if (location + 1 > max_len) {
-				return max_len;
-			}
-			serialize[location++] = '%';
-                        sformat_length = 0;
-                        sformat_precision = QB_FALSE;
+			format++;
 			break;
 
 		}
